@@ -3,6 +3,7 @@ package cache
 import (
 	"context"
 	"os"
+	"path/filepath"
 	"strings"
 
 	. "github.com/warpfork/go-errcat"
@@ -54,6 +55,11 @@ func (c cache) Unpack(
 	//  answered -- unverified -- with a piece of another ware's shelf.
 	if strings.ContainsAny(wareID.Hash, "/\x00") || wareID.Hash == "." || wareID.Hash == ".." {
 		return api.WareID{}, Errorf(rio.ErrUsage, "invalid ware ID %q: the hash must be a single path segment", wareID)
+	}
+
+	// ... and wherever something gets placed, the destination has to be an absolute path.
+	if placementMode != rio.Placement_None && !filepath.IsAbs(path) {
+		return api.WareID{}, Errorf(rio.ErrUsage, "unpack destination %q is not an absolute path", path)
 	}
 
 	// Zeroth thing: caches are by hash, but remember that filters can give you a
